@@ -47,6 +47,7 @@ pub fn generator(prop: &str) -> Option<Gen> {
         "C07" => Some(gen::gen_c07),
         "C19" => Some(gen::gen_c19),
         "C05" => Some(gen::gen_c05),
+        "C06" => Some(gen::gen_c06),
         _ => None,
     }
 }
@@ -58,6 +59,7 @@ pub fn budget(prop: &str, tier: &str) -> u64 {
         "C07" => 400,
         "C19" => 300,
         "C05" => 300,
+        "C06" => 300,
         "C14" => 3 * 6 * 155 + 200,
         _ => 150,
     };
